@@ -71,11 +71,18 @@ def run_potable(args, text=None, tmpdir=None, hashseed="0", timeout=120, infile_
 def pair_potentials_api(model, wrap=None):
   """Potential objects built through the Python API from a pair model spec."""
   from atsim.potentials import Potential
+  import json
   pots = []
+  shared = {}
   for a, b, node in model["pair"]:
-    f = emit.api_callable(node, model.get("tables"))
-    if wrap is not None:
-      f = wrap(f, (a, b))
+    key = json.dumps(node, sort_keys=True)
+    if model.get("share_callables") and key in shared:
+      f = shared[key]          # the very same callable object serves several species pairs
+    else:
+      f = emit.api_callable(node, model.get("tables"))
+      if wrap is not None:
+        f = wrap(f, (a, b))
+      shared[key] = f
     pots.append(Potential(a, b, f))
   return pots
 
